@@ -5,7 +5,7 @@
        "U <s e is ie def qs qe qn>..."   (def = -1: none; qs = -1: unqualified)
        "N <id s e is ie decl>..."
        "Q <s e name>..."
-     then "X <kind m idx>..."             (kind 0 = definition, 1 = references, 2 = rename)
+     then "X <kind m idx>..."             (kind 0 = definition, 1 = references, 2 = rename, 3 = prepareRename)
    Output: one answer per query separated by ";": "m:s:e" items separated by spaces ("-" = none / empty) *)
 open Conv
 
@@ -53,7 +53,8 @@ let run () =
                      let a =
                        if k = 0 then (match Folder.f_goto f m' i with Some x -> item x | None -> "-")
                        else if k = 1 then items (Folder.f_references f m' i)
-                       else items (Folder.f_rename f m' i) in
+                       else if k = 2 then items (Folder.f_rename f m' i)
+                       else (match Folder.f_prepare f m' i with Some (s, e) -> item ((m', s), e) | None -> "-") in
                      a :: go r
                  | _ -> [] in
                print_endline (String.concat ";" (go (ints qs)))
